@@ -401,7 +401,8 @@ def run (ctx):
     for nm, node, path in defs.use_before_def(f):
       if nm in ('t',): continue
       ctx.bad('R-DEF', f, "local `%s` used before assignment" % nm, "feasible path %s" % path, (mod, node), 'D7')
-
+  # ---- mechanisms this property shares with others: their checks' rules about these functions are obligations here too
+  ctx.include('C07', ['ScheduleTask.run', 'Scheduler.schedule', 'Scheduler.fast_schedule'], "waking a task from another thread goes through the scheduler's ready queue")
 
 def hub_pong_order (ctx, repo, sel, g2, mod, clause):
   inc = g2.nodes_with_call(lambda c: call_name(c) == 'get' and '_incoming' in norm(c.func.value))
